@@ -112,16 +112,17 @@ def compBody (env : REnv) (c : String) : Option (List RItem) :=
 
 def MAX_COMPONENT_RECURSION_DEPTH : Nat := 20
 
-def andThen (r : Except RErr String) (k : Except RErr String) : Except RErr String :=
+/-- sequencing with `?`: the continuation only runs when the first part succeeded -/
+def andThen (r : Except RErr String) (k : Unit → Except RErr String) : Except RErr String :=
   match r with
-  | .ok out => (match k with | .ok rest => .ok (out ++ rest) | .error e => .error e)
+  | .ok out => (match k () with | .ok rest => .ok (out ++ rest) | .error e => .error e)
   | .error e => .error e
 
 /-- One `interpret` call over a chunk; `rec` is the nested `interpret` (one level deeper). -/
 def runItems (env : REnv) (rec : RCtx → List RItem → Except RErr String) :
     RCtx → List RItem → Except RErr String
   | _, [] => .ok ""
-  | ctx, .text s :: rest => andThen (.ok s) (runItems env rec ctx rest)
+  | ctx, .text s :: rest => andThen (.ok s) (fun _ => runItems env rec ctx rest)
   | ctx, .inc n :: rest =>
     -- render_include: must_get_template, a new vm for the included template, a fresh state
     match resolve env.ps env.S n with
@@ -131,7 +132,7 @@ def runItems (env : REnv) (rec : RCtx → List RItem → Except RErr String) :
       | none => .error .panic
       | some t =>
         andThen (rec { view := t.name, blocks := [], cur := none, compDepth := ctx.compDepth } (bodyOfTpl t))
-          (runItems env rec ctx rest)
+          (fun _ => runItems env rec ctx rest)
   | ctx, .blk b :: rest =>
     match lineageOf env ctx.view b with
     | none => .error .noLineage
@@ -141,7 +142,7 @@ def runItems (env : REnv) (rec : RCtx → List RItem → Except RErr String) :
       | none => .error .panic
       | some body =>
         andThen (rec { ctx with blocks := (b, o :: l, 0) :: ctx.blocks, cur := some b } body)
-          (runItems env rec ctx rest)
+          (fun _ => runItems env rec ctx rest)
   | ctx, .sup :: rest =>
     match ctx.cur with
     | none => .error .superOutsideBlock
@@ -156,7 +157,7 @@ def runItems (env : REnv) (rec : RCtx → List RItem → Except RErr String) :
           | none => .error .panic
           | some body =>
             andThen (rec { ctx with blocks := setTopLevel ctx.blocks cb (level + 1) } body)
-              (runItems env rec ctx rest)
+              (fun _ => runItems env rec ctx rest)
   | ctx, .comp c :: rest =>
     if ctx.compDepth + 1 > MAX_COMPONENT_RECURSION_DEPTH then .error .componentDepth
     else
@@ -164,7 +165,7 @@ def runItems (env : REnv) (rec : RCtx → List RItem → Except RErr String) :
       | none => .error .panic
       | some body =>
         andThen (rec { view := ctx.view, blocks := [], cur := none, compDepth := ctx.compDepth + 1 } body)
-          (runItems env rec ctx rest)
+          (fun _ => runItems env rec ctx rest)
 
 /-- `interpret` with at most `fuel` nested levels -/
 def run (env : REnv) : Nat → RCtx → List RItem → Except RErr String
